@@ -23,10 +23,10 @@ from vplib.common import VERIF
 
 MANIFEST = dict(
     category="proof",
-    text="PARTIAL. Proved in Coq (props/C01.v): builtin_result_typed — every modelled pure builtin's value outcome inhabits its REGISTERED result TypeSpec on every argument, and on a well-typed argument the only error is InvalidArgument (table mirrored from builtins/mod.rs, compared with the real registry on every run); get_typed; data_moves_preserve_wt (every instruction other than Tuple/Function only moves or drops values, for any hereditary predicate); istype_refines (relative to C08's table statement and C09's soundness); inhabv_sound_fo (the oracle's decision procedure implies Sem.inhab on first-order values); monitor_sound (obligations O1-O4 at every step of a finished run => no VM-level type failure, every held value well-typed, result inhabits the entry's result type). NOT proved: type_soundness for every accepted program (there is no model of the 10 kLoC flow-sensitive typing of compiler.rs); that part is decided per explored program by an oracle on the real compiler + VM whose judgement `result inhabits inferred type` is the extracted Coq definition, over corpus, all repository sources, mutations and a type-directed generator, with functions applied to inputs enumerated from their inferred parameter types.",
+    text="PARTIAL. Proved in Coq (props/C01.v, 15 theorems, no axioms): (1) for a CORE FRAGMENT of the language (typed/Core.v: literals, tuples, positional field access, integer_add / binary_length, bare and type-ascribed binders with nil-narrowing, blocks on a variable with forward and complement narrowing exactly as compile_block implements them after the repairs F13 F53 F54 F59 F66 F74 F80 F86, calls of monomorphic non-dispatching functions) full type safety of an AST-level typing judgement: core_soundness (accepted at T and evaluates to v => v in [[T]]), core_progress (an accepted expression never gets stuck and terminates), core_type_safety, with subty_sound / disj_sound / split_sound for the relations and the narrowing split it uses; the judgement is tied to the real compiler on every run: on generated core programs the extracted `infer` must equal the real compiler's inferred type and the extracted `eval` the real VM's value; (2) the semantic facts the compiler's rules rely on beyond the fragment: builtin_result_typed / builtin_only_domain_errors over the 43 registered TypeSpecs (compared with the real registry on every run), get_typed, data_moves_origin / data_moves_preserve_wt, wt_hereditary, istype_refines (relative to C08's table statement and C09's soundness), inhabv_sound_fo (the oracle's decision procedure implies Sem.inhab on first-order values), monitor_sound (obligations O1-O4 at every step => no VM-level type failure and the result inhabits the entry's result type). NOT proved: type_soundness for every accepted program - there is no model of compiler.rs beyond the core fragment (labels, partial types, generics, recursive types, closures, tail calls, processes, dispatch tables, aliasing by provenance are outside it); that part is decided per explored program by an oracle on the real compiler + VM whose judgement `result inhabits inferred type` is the extracted Coq definition, over corpus (open findings + must-pass regression probes), all repository sources, mutations and two type-directed generators, with functions applied to inputs enumerated from their inferred parameter types.",
     design_ref="§5 C01",
-    note="Trusted: Coq kernel, extraction (ExtrOcamlBasic), OCaml driver, Rust harness qv_typed, the Python generator/mutator/shrinker. Judgement domain: type variables are read as top; a function value whose declared type mentions a type variable is `undecided` (counted); function-signature containment is decided over values enumerated to depth 2 (approximate). InvalidArgument is accepted as the documented value-domain error unless its message is one of the executor's own (listed in c01.py). Panics are counted, not judged (C12/C15).",
-    technique="Coq proofs of the typing-rule lemmas and of the monitor + oracle on the real compiler/VM with an extracted Coq judgement, type-directed generation, mutation of repository sources, enumeration of inputs from inferred parameter types",
+    note="Trusted: Coq kernel, extraction (ExtrOcamlBasic), OCaml driver, Rust harness qv_typed, the Python generators/mutator/shrinker/renderer of core programs. Judgement domain of the oracle: type variables are read as top; a function value whose declared type mentions a type variable is `undecided` (counted); function-signature containment is decided over first-order values enumerated to depth 2 (approximate). InvalidArgument is accepted as the documented value-domain error unless its message is one of the executor's own (listed in c01.py). Panics are counted, not judged (C12/C15). Core fragment: the bare binder rule is the sound one (binds nil); the real compiler still strips nil there (finding F27), so the generator binds no nilable value with a bare binder and no variable to a variable (aliasing by provenance is not modelled). Known findings are routed by semantic signatures (re-running variants of the failing program on the real compiler), table-driven by known_findings.json; corpus/c01_regressions.txt holds must-pass probes of every repaired finding.",
+    technique="Coq proof of type safety for a core fragment (typing judgement + evaluator, judgement compared with the real compiler's inferred types on every run) + Coq proofs of the typing-rule lemmas and of the monitor + oracle on the real compiler/VM with an extracted Coq judgement, type-directed generation, mutation of repository sources, enumeration of inputs from inferred parameter types",
 )
 
 # error classes that are VM-level type / arity / stack failures (error.rs)
@@ -604,7 +604,7 @@ FINDING_IDS = {
     "nil-through-type-test": "F13c01", "failed-match-binder": "F74", "tail-branch-never": "F66",
     "unify-recursive-tail": "F67", "partial-position": "F68", "implicit-nil-application": "F58",
     "star-partial-nil-binder": "F80", "typevar-capture": "F81",
-    "dead-chain-complement": "F86",
+    "dead-chain-complement": "F86", "scalar-member-field-access": "F88",
     "union-widening-dropped": "F83",
 }
 
@@ -656,7 +656,8 @@ class Classifier:
                          ("union-widening-dropped", self.sig_union_widening),
                          ("tail-branch-never", self.sig_tail_never),
                          ("recursive-binder", self.sig_f59), ("union-to-generic", self.sig_f2),
-                         ("implicit-nil-application", self.sig_f58)):
+                         ("implicit-nil-application", self.sig_f58),
+                         ("scalar-member-field-access", self.sig_scalar_member)):
             try:
                 if fn(src, mods, failure):
                     return name
@@ -846,6 +847,26 @@ class Classifier:
             return False
         recs = self.outcomes(variants[:6], mods)
         return any(r["status"] == "compile-error" for r in recs)
+
+    # ---- scalar-member-field-access: field access on a union with a NON-TUPLE member is accepted
+    # (the field-type query ignores 'int / 'bin members). Signature: the run fails with
+    # TypeMismatch expected tuple found integer/binary, the source accesses a field, and with the
+    # 'int / 'bin members removed from the program's union type expressions the compiler REJECTS it
+    # (the scalar argument no longer fits) or the failure is gone.
+    def sig_scalar_member(self, src, mods, failure):
+        if failure.get("kind") != "vm-type-failure" or failure.get("cls") != "TypeMismatch":
+            return False
+        msg = failure.get("msg", "")
+        if '"tuple"' not in msg or not ('"integer"' in msg or '"binary"' in msg):
+            return False
+        if not re.search(r"[a-z0-9_\])$~}]\s?\.[a-z0-9]", strip_strings(src)):
+            return False
+        v = re.sub(r"\|\s*'(?:int|bin)\b", "", src)
+        v = re.sub(r"'(?:int|bin)\s*\|\s*(?=[A-Z\['(])", "", v)
+        if v == src:
+            return False
+        rec = self.outcomes([v], mods)[0]
+        return rec["status"] == "compile-error" or (rec["status"] == "accepted" and not rec["failure"])
 
     # ---- recursive-binder (F59): a binder taken from a back-reference position keeps a Cycle that
     # re-binds. Signature: the judgement rejects but accepts when variants of recursive types read
